@@ -56,6 +56,75 @@ func guarded(f func() string) (out string) {
 	return f()
 }
 
+// jobOps: job op -> executor (d = the program's definitions, goType/sname/payload as the suite defines them).
+// Each runner file registers its ops in init().
+var jobOps = map[string]func(d *Defs, goType, sname, payload string) string{}
+
+func init() {
+	jobOps["w"] = func(d *Defs, goType, sname, payload string) string {
+		ctor, ok := ctors[goType]
+		if !ok {
+			return "no-such-type:" + goType
+		}
+		st := &Ty{K: 'S', Name: sname}
+		obj := ctor()
+		pos := 0
+		assign(d, reflect.ValueOf(obj).Elem(), st, parseVal(payload, &pos))
+		rec := &recorder{}
+		if err := obj.Write(ctx, rec); err != nil {
+			return errClass(err)
+		}
+		return "ok " + canonEvents(rec.ev)
+	}
+	jobOps["r"] = func(d *Defs, goType, sname, payload string) string {
+		ctor, ok := ctors[goType]
+		if !ok {
+			return "no-such-type:" + goType
+		}
+		st := &Ty{K: 'S', Name: sname}
+		obj := ctor()
+		rp := &replayer{in: parseEvents(payload)}
+		if err := obj.Read(ctx, rp); err != nil {
+			return errClass(err)
+		}
+		return fmt.Sprintf("ok %s rest=%d", dump(d, reflect.ValueOf(obj), st), len(rp.in)-rp.pos)
+	}
+	jobOps["p"] = func(d *Defs, goType, sname, payload string) string {
+		ctor, ok := ctors[goType]
+		if !ok {
+			return "no-such-type:" + goType
+		}
+		st := &Ty{K: 'S', Name: sname}
+		var parts []string
+		for _, pf := range []struct {
+			name string
+			f    thrift.TProtocolFactory
+		}{
+			{"binary", thrift.NewTBinaryProtocolFactoryConf(nil)},
+			{"compact", thrift.NewTCompactProtocolFactoryConf(nil)},
+			{"json", thrift.NewTJSONProtocolFactory()},
+		} {
+			parts = append(parts, pf.name+"="+guarded(func() string {
+				obj := ctor()
+				pos := 0
+				assign(d, reflect.ValueOf(obj).Elem(), st, parseVal(payload, &pos))
+				buf := thrift.NewTMemoryBuffer()
+				prot := pf.f.GetProtocol(buf)
+				if err := obj.Write(ctx, prot); err != nil {
+					return "write-" + errClass(err)
+				}
+				prot.Flush(ctx)
+				back := ctor()
+				if err := back.Read(ctx, pf.f.GetProtocol(buf)); err != nil {
+					return "read-" + errClass(err)
+				}
+				return dump(d, reflect.ValueOf(back), st)
+			}))
+		}
+		return "ok " + strings.Join(parts, " ")
+	}
+}
+
 func main() {
 	defsByID := map[string]*Defs{}
 	if len(os.Args) > 1 {
@@ -86,58 +155,14 @@ func main() {
 		idx, op, defsID, goType, sname, payload := p[0], p[1], p[2], p[3], p[4], p[5]
 		d := defsByID[defsID]
 		res := guarded(func() string {
-			ctor, ok := ctors[goType]
-			if !ok || d == nil {
-				return "no-such-type:" + goType
+			f, ok := jobOps[op]
+			if !ok {
+				return "bad-job"
 			}
-			st := &Ty{K: 'S', Name: sname}
-			switch op {
-			case "w":
-				obj := ctor()
-				pos := 0
-				assign(d, reflect.ValueOf(obj).Elem(), st, parseVal(payload, &pos))
-				rec := &recorder{}
-				if err := obj.Write(ctx, rec); err != nil {
-					return errClass(err)
-				}
-				return "ok " + canonEvents(rec.ev)
-			case "r":
-				obj := ctor()
-				rp := &replayer{in: parseEvents(payload)}
-				if err := obj.Read(ctx, rp); err != nil {
-					return errClass(err)
-				}
-				return fmt.Sprintf("ok %s rest=%d", dump(d, reflect.ValueOf(obj), st), len(rp.in)-rp.pos)
-			case "p":
-				var parts []string
-				for _, pf := range []struct {
-					name string
-					f    thrift.TProtocolFactory
-				}{
-					{"binary", thrift.NewTBinaryProtocolFactoryConf(nil)},
-					{"compact", thrift.NewTCompactProtocolFactoryConf(nil)},
-					{"json", thrift.NewTJSONProtocolFactory()},
-				} {
-					parts = append(parts, pf.name+"="+guarded(func() string {
-						obj := ctor()
-						pos := 0
-						assign(d, reflect.ValueOf(obj).Elem(), st, parseVal(payload, &pos))
-						buf := thrift.NewTMemoryBuffer()
-						prot := pf.f.GetProtocol(buf)
-						if err := obj.Write(ctx, prot); err != nil {
-							return "write-" + errClass(err)
-						}
-						prot.Flush(ctx)
-						back := ctor()
-						if err := back.Read(ctx, pf.f.GetProtocol(buf)); err != nil {
-							return "read-" + errClass(err)
-						}
-						return dump(d, reflect.ValueOf(back), st)
-					}))
-				}
-				return "ok " + strings.Join(parts, " ")
+			if d == nil {
+				return "no-such-defs:" + defsID
 			}
-			return "bad-job"
+			return f(d, goType, sname, payload)
 		})
 		fmt.Fprintf(out, "%s\t%s\n", idx, res)
 	}
